@@ -273,6 +273,26 @@ def rule_R1_header(ctx):
         if T.has_call(t, "is_some") and T.has_call(t, "opt"):
             okr = True
     ctx.check(okr, "R1", "Header:optional-flag", "optional = opt(char('?')).is_some()", "optional flag not derived from the `?` mark", ctx.loc(pb))
+    # the value is stored as parsed: `Name=[]` (an empty bracketed value) and `Name` (no value) are different texts and print differently,
+    # so nothing may turn one into the other on the way into the Header (no filter / emptiness test on the value)
+    okv = bool(aggs)
+    why = ""
+    for (i, j, s) in aggs:
+        f = s["r"]["fields"]
+        t = S.operand(s["r"]["ops"][f.index("value")], i, j)
+        # (with_closures: the conversion closure of `.map(..)`; a predicate handed to `filter` decides on the contents)
+        dropping = sorted({T.short(x[1]).rsplit("::", 1)[-1] for x in T.calls_in(t) if x[1].rsplit("::", 1)[-1] in
+                           ("filter", "is_empty", "take_if", "then", "then_some", "trim", "trim_matches", "strip_prefix", "strip_suffix")})
+        conds = [c for c in Q.canon_conds(P, T.dom_conds(pb, S, i)) if c[0] in ("bool", "cmp") and (T.has_call(c[1] if c[0] == "bool" else c[2], "is_empty") or
+                                                                                                T.has_call(c[1] if c[0] == "bool" else c[2], "::len"))]
+        # a value that the code itself can turn into None (`if v.is_empty() { None } else { v }`, `filter` written out)
+        forced_none = any(x[0] == "phi" and any(T.strip(y)[0] == "agg" and T.strip(y)[3] == "None" for y in x[1]) for x in T.walk(t))
+        if dropping or conds or forced_none:
+            okv = False
+            why = ", ".join(dropping) or ("a branch that replaces it by None" if forced_none else "a length / emptiness test")
+    ctx.check(okv, "R1", "Header:value-as-parsed", "Header.value is the bracketed text as parsed (empty or not)",
+              "the header value passes through %s before it is stored: an empty bracketed value `Name=[]` is loaded as `Name`, the two lines become equal signatures "
+              "and the text no longer round-trips" % why, ctx.loc(pb))
 
 
 def rule_R1_label(ctx):
